@@ -32,7 +32,7 @@ PAR = 8
 BOUND = 25.0
 
 ACTS = ["idle", "blocked", "busy", "sleep", "swallow_kbi", "sigint_ignored", "daemon_threads", "flood", "big_transfer", "endmarker_raises",
-        "callback_service"]
+        "callback_service", "inbound_flood"]
 GEVENT_ACTS = ["idle", "blocked", "gevent_sleep", "gevent_busy", "gevent_timesleep"]
 REMOVALS = ["sigkill", "sigterm", "os_exit", "normal_exit", "close_connection", "during_bootstrap"]
 TOPOS = ["popen", "python", "via", "socket"]
@@ -70,7 +70,7 @@ def gen_case(rng, idx):
             "worker_noise": rng.random() < 0.4,
             # what the workers inherit as fd 2: a file; a pipe whose reader goes away with the initiator; nothing (fd 2 closed)
             "stderr": rng.choice(("file", "file", "file", "pipe_reader_gone", "closed")),
-            "boot_delay": rng.choice((0.0, 0.02, 0.05, 0.1, 0.15, 0.25, 0.4))}
+            "boot_delay": rng.choice((0.0, 0.02, 0.05, 0.1, 0.15, 0.25, 0.4)), "removal_delay": rng.choice((0.0, 0.0, 0.01, 0.1, 0.3))}
 
 
 def run_case(case, out):
@@ -144,6 +144,9 @@ def run_case(case, out):
             if not ready.wait(90):
                 result["harness_error"] = "initiator never became ready: " + _tail(errf.name)
                 return
+            # the moment of the removal relative to what the initiator is doing (a transfer towards a worker needs a
+            # moment to be under way)
+            time.sleep(0.4 if case.get("activity") == "inbound_flood" else case.get("removal_delay", 0.0))
             if removal == "sigkill":
                 os.kill(p.pid, signal.SIGKILL)
                 t0 = time.monotonic()
@@ -295,6 +298,11 @@ def run_shard(spec):
         cases[1].update(gen_fixed("popen", "main_thread_only", "swallow_kbi", "os_exit"))
         cases[2].update(gen_fixed("popen", "thread", "swallow_kbi", "sigkill", stderr="pipe_reader_gone"))
         cases[4].update(gen_fixed("popen", "thread", "callback_service", "sigkill"))
+    if spec["shard"] == 3:
+        cases[0].update(gen_fixed("popen", "thread", "inbound_flood", "sigkill"))
+        cases[1].update(gen_fixed("python", "main_thread_only", "inbound_flood", "os_exit"))
+    if spec["shard"] == 4:
+        cases[0].update(gen_fixed("via", "thread", "inbound_flood", "sigkill"))
         cases[5].update(gen_fixed("python", "main_thread_only", "callback_service", "close_connection"))
         cases[3].update(gen_fixed("python", "thread", "sigint_ignored", "sigkill", stderr="closed"))
     if spec["shard"] == 2:
@@ -350,5 +358,8 @@ def run_shard(spec):
 
 def gen_fixed(topo, model, act, removal, stderr="file"):
     action = {"sigkill": "wait_killed", "sigterm": "wait_killed", "during_bootstrap": "wait_killed"}.get(removal, removal)
-    return {"gateways": [{"spec": topo, "id": "w", "execmodel": model, "activity": act}], "action": action, "removal": removal,
-            "topo": topo, "model": model, "activity": act, "stderr": stderr}
+    gws = [{"spec": topo, "id": "w", "execmodel": model, "activity": act}]
+    if topo in ("via", "socket"):
+        gws = [{"spec": "popen", "id": "m", "execmodel": "thread", "activity": "idle"},
+               {"spec": topo, "id": "w", "master": "m", "execmodel": model, "activity": act}]
+    return {"gateways": gws, "action": action, "removal": removal, "topo": topo, "model": model, "activity": act, "stderr": stderr}
